@@ -13,6 +13,11 @@ A *script* is a list of ops (all times in ticks of 62.5 ms):
     ["world", "bridge"]        (configuration, right after the first advance) the accessory is a Bridge with two
                                accessories built from the same definition: characteristics #0..3 live on aid 2,
                                #4..7 on aid 3, and #x / #x+4 share their iid
+    ["world", "strings"]       (configuration) characteristic #1 (and #5 on a bridge) is a STRING characteristic
+                               (Configured Name, notifying, writable); the script's numeric values v stand for the
+                               strings STRS[v] (non-ASCII, escaped, control characters, maximum length); what the
+                               controllers receive is translated back, an unknown string is reported as it is
+    ["world", "v6"]            (configuration) the peers are IPv6 peers: asyncio reports 4-tuple peernames
     ["prepare", p, pid]        PUT /prepare
     ["snapshot", p]            POST /resource (delayed response)
     ["resp_ready", p]          the snapshot of #p completes
@@ -157,6 +162,30 @@ def is_bridge(ops) -> bool:
     return any(op[0] == "world" and op[1] == "bridge" for op in ops)
 
 
+def is_strings(ops) -> bool:
+    return any(op[0] == "world" and op[1] == "strings" for op in ops)
+
+
+def is_v6(ops) -> bool:
+    return any(op[0] == "world" and op[1] == "v6" for op in ops)
+
+
+# the strings the numeric script values stand for on a string characteristic: every kind that makes
+# characters, UTF-8 bytes and JSON text differ in length (Configured Name allows 64 characters)
+_STR_KINDS = [
+    "Lamp ",                     # plain ASCII
+    "Fernseher K\u00fcche ",     # Latin-1 range: 1 character, 2 bytes
+    "\u041a\u0443\u0445\u043d\u044f ",  # Cyrillic
+    "\U0001f4fa TV ",            # outside the BMP: 4 bytes, a surrogate pair when escaped
+    'say "hi" \\ back ',        # characters JSON must escape
+    "tab\tline\nfeed ",          # control characters
+    "\u00e9" * 58 + " ",         # maximum length, all multi-byte
+    "sep\u2028\u2029 ",         # legal JSON, awkward for lenient parsers
+]
+STRS = [_STR_KINDS[v % len(_STR_KINDS)] + str(v) for v in range(128)]
+_STR_INDEX = {t: i for i, t in enumerate(STRS)}
+
+
 def code_tables(bridge=False):
     """which of the test characteristics the CODE treats as immediate / always-null
     (module tables of pyhap.characteristic; fed to the model as its configuration)"""
@@ -191,9 +220,10 @@ def model_addr(peer):
 class World:
     """One accessory (4 characteristics), one driver, one server, many connections."""
 
-    def __init__(self, crypto_conns=(), v6=0, bridge=False):
+    def __init__(self, crypto_conns=(), v6=0, bridge=False, strings=False):
         self.v6 = v6
         self.bridge = bridge
+        self.strings = strings
         import pyhap.accessory_driver as ad
         import pyhap.characteristic as ch
         from pyhap.accessory import Accessory
@@ -244,6 +274,9 @@ class World:
                     {"Format": "uint8", "Permissions": ["pr", "pw", "ev"], "minValue": 0, "maxValue": 100},
                 ),
             ]
+            if strings:
+                chars[1] = loader.get_char("ConfiguredName")
+                chars[1].value = STRS[0]  # the model's initial value 0
             for c in chars:
                 svc.add_characteristic(c)
             acc.add_service(svc)
@@ -311,6 +344,20 @@ class World:
     def record(self, idx, kind, data):
         self.log.setdefault(idx, []).append([self.tick(), kind, data, self.op_index])
 
+    # ------------------------------------------------------------------ string values
+    def is_str(self, x) -> bool:
+        return self.strings and x % 4 == 1
+
+    def enc(self, x, v):
+        """script value -> value handed to the code"""
+        return STRS[v] if (v is not None and self.is_str(x)) else v
+
+    def dec(self, x, val):
+        """value seen on the wire / in the characteristic -> script value (unknown strings stay as they are)"""
+        if isinstance(x, int) and self.is_str(x) and isinstance(val, str):
+            return _STR_INDEX.get(val, val)
+        return val
+
     # ------------------------------------------------------------------ requests
     def _http(self, method, target, body=b"", close=False):
         head = "%s %s HTTP/1.1\r\nHost: hap\r\n" % (method, target)
@@ -325,8 +372,12 @@ class World:
         if ev is not None:
             q["ev"] = bool(ev)
         if val is not None:
-            q["value"] = val
+            q["value"] = self.enc(x, val)
         return q
+
+    def _json(self, p, obj) -> bytes:
+        """request bodies: \\u escapes from even connections, raw UTF-8 from odd ones (both are legal JSON)"""
+        return json.dumps(obj, ensure_ascii=(p % 2 == 0)).encode("utf-8")
 
     def feed(self, p, data: bytes):
         proto = self.protos[p]
@@ -378,7 +429,7 @@ class World:
         elif k == "putm":
             p = op[1]
             if p < len(self.protos):
-                body = json.dumps({"characteristics": [self._query(x, ev, val) for x, ev, val in op[2]]}).encode()
+                body = self._json(p, {"characteristics": [self._query(x, ev, val) for x, ev, val in op[2]]})
                 self.feed(p, self._http("PUT", "/characteristics", body, op[3]))
         elif k in ("put", "get", "prepare", "snapshot", "bad_http", "bad_frame"):
             p = op[1]
@@ -386,7 +437,7 @@ class World:
                 return
             if k == "put":
                 _, _, x, ev, val, close = op
-                body = json.dumps({"characteristics": [self._query(x, ev, val)]}).encode()
+                body = self._json(p, {"characteristics": [self._query(x, ev, val)]})
                 self.feed(p, self._http("PUT", "/characteristics", body, close))
             elif k == "get":
                 self.feed(p, self._http("GET", "/characteristics?id=%d.%d" % self.ids[op[2]]))
@@ -419,9 +470,9 @@ class World:
             if op[2] == "echo":
                 ch_.setter_callback = lambda value, c=ch_: c.set_value(value)
             elif op[2] == "set_to":
-                ch_.setter_callback = lambda value, c=ch_, v2=op[3]: c.set_value(v2)
+                ch_.setter_callback = lambda value, c=ch_, v2=self.enc(op[1], op[3]): c.set_value(v2)
             elif op[2] == "set_other":
-                ch_.setter_callback = lambda value, c=self.chars[op[3]], w=op[4]: c.set_value(w)
+                ch_.setter_callback = lambda value, c=self.chars[op[3]], w=self.enc(op[3], op[4]): c.set_value(w)
             elif op[2] == "raise":
                 def failing(value):
                     raise RuntimeError("device unreachable")
@@ -430,16 +481,17 @@ class World:
             else:
                 raise ValueError("unknown callback kind %r" % (op,))
         elif k == "app_set":
-            self.chars[op[1]].set_value(op[2])
+            self.chars[op[1]].set_value(self.enc(op[1], op[2]))
         elif k == "app_set_thread":
             import threading
 
-            assert self.driver.tid is threading.current_thread(), "the harness must run on driver.tid"
+            if self.driver.tid is not threading.current_thread():
+                raise RuntimeError("the harness must run on driver.tid")
             err = []
 
             def work():
                 try:
-                    self.chars[op[1]].set_value(op[2])
+                    self.chars[op[1]].set_value(self.enc(op[1], op[2]))
                 except BaseException as ex:  # noqa: BLE001
                     err.append(ex)
 
@@ -475,7 +527,7 @@ class World:
             aid, iid = t.split(".")
             topics[str(self.id_to_x.get((int(aid), int(iid)), t))] = sorted(model_addr(s) for s in subs)
         prep = {str(model_addr(k)): sorted(v.keys()) for k, v in self.driver.prepared_writes.items()}
-        vals = [c.value for c in self.chars]
+        vals = [self.dec(x, c.value) for x, c in enumerate(self.chars)]
         return {"reg": reg, "topics": topics, "prepared": prep, "values": vals}
 
     def decoded_log(self):
@@ -494,19 +546,22 @@ class World:
                     except Exception as ex:  # noqa: BLE001
                         res.append([tick, "undecryptable", type(ex).__name__, opi])
                         continue
-                for m in parse_messages(data, self.id_to_x):
+                for m in parse_messages(data, self.id_to_x, self.dec):
                     res.append([tick] + m + [opi])
             out[idx] = res
         return out
 
 
-def parse_messages(data: bytes, id_to_x):
-    """split a plaintext write into HTTP/EVENT messages -> [kind, ...] lists"""
+def parse_messages(data: bytes, id_to_x, dec=lambda x, v: v):
+    """split a plaintext write into HTTP/EVENT messages -> [kind, ...] lists, the way a controller reads
+    its byte stream: start line + headers up to the empty line, then EXACTLY Content-Length body BYTES
+    (or the chunks), which must be valid UTF-8 JSON for application/hap+json; whatever does not parse
+    is reported as ["garbage", ...] and the reader goes on behind the bytes it consumed"""
     msgs = []
     while data:
         head, sep, rest = data.partition(b"\r\n\r\n")
         if not sep:
-            msgs.append(["garbage", data.hex()])
+            msgs.append(["garbage", data[:60].hex()])
             break
         lines = head.split(b"\r\n")
         status = lines[0].split(b" ")
@@ -518,30 +573,56 @@ def parse_messages(data: bytes, id_to_x):
             body = b""
             while True:
                 size, _, rest = rest.partition(b"\r\n")
-                k = int(size.split(b";")[0] or b"0", 16)
+                try:
+                    k = int(size.split(b";")[0] or b"0", 16)
+                except ValueError:
+                    msgs.append(["garbage", size[:40].hex()])
+                    return msgs
                 body += rest[:k]
                 rest = rest[k + 2:]
                 if k == 0:
                     break
             data = rest
         else:
-            n = int(hdr.get(b"content-length", b"0"))
+            try:
+                n = int(hdr.get(b"content-length", b"0"))
+            except ValueError:
+                msgs.append(["garbage", head[:60].hex()])
+                break
+            if len(rest) < n:
+                msgs.append(["garbage", ("short body: %d of %d bytes" % (len(rest), n))])
+                break
             body, data = rest[:n], rest[n:]
         if status[0] == b"EVENT/1.0":
-            chars = json.loads(body)["characteristics"]
-            ents = []
-            for c in chars:
-                ents.append([id_to_x.get((c["aid"], c["iid"]), -1000 * c["aid"] - c["iid"]), c.get("value")])
+            try:
+                chars = json.loads(body.decode("utf-8"))["characteristics"]
+                ents = []
+                for c in chars:
+                    x = id_to_x.get((c["aid"], c["iid"]), -1000 * c["aid"] - c["iid"])
+                    ents.append([x, dec(x, c.get("value"))])
+            except (ValueError, KeyError, TypeError) as ex:
+                msgs.append(["garbage", "EVENT body of %d bytes is not a HAP JSON document (%s): %s" % (len(body), type(ex).__name__, body[:80].hex())])
+                continue
             msgs.append(["event", ents])
         elif status[0].startswith(b"HTTP/"):
-            code = int(status[1])
+            try:
+                code = int(status[1])
+            except (ValueError, IndexError):
+                msgs.append(["garbage", head[:60].hex()])
+                continue
             ctype = hdr.get(b"content-type", b"")
             if not body:
                 b = None
             elif ctype.startswith(b"application/hap+json"):
-                j = json.loads(body)
+                try:
+                    j = json.loads(body.decode("utf-8"))
+                except ValueError as ex:
+                    msgs.append(["garbage", "HTTP body of %d bytes is not JSON (%s)" % (len(body), type(ex).__name__)])
+                    continue
                 if "characteristics" in j:
-                    b = {"chars": [[id_to_x.get((c["aid"], c["iid"]), -1), c.get("value", "absent"), c.get("status", 0)] for c in j["characteristics"]]}
+                    b = {"chars": [[id_to_x.get((c["aid"], c["iid"]), -1),
+                                    dec(id_to_x.get((c["aid"], c["iid"]), -1), c.get("value", "absent")), c.get("status", 0)]
+                                   for c in j["characteristics"]]}
                 else:
                     b = j
             else:
@@ -554,7 +635,7 @@ def parse_messages(data: bytes, id_to_x):
 
 def run_script(ops, crypto_conns=(), want_digests=True, v6=0):
     """Run a script on the real code. Returns {"log": per-object decoded log, "digests": [...]}"""
-    w = World(crypto_conns, v6, bridge=is_bridge(ops))
+    w = World(crypto_conns, 1 if (v6 or is_v6(ops)) else 0, bridge=is_bridge(ops), strings=is_strings(ops))
     try:
         digests = []
         for i, op in enumerate(ops):
